@@ -45,6 +45,37 @@ func withSignatures(signed string, from ...string) string {
 	return signed[:strings.Index(signed, "-----BEGIN PGP SIGNATURE-----")] + b.String() + "\n"
 }
 
+// withPackets replaces the signature armor by one holding the given raw packets
+func withPackets(signed string, packets []byte) string {
+	var b bytes.Buffer
+	w, _ := armor.Encode(&b, "PGP SIGNATURE", nil)
+	w.Write(packets)
+	w.Close()
+	return signed[:strings.Index(signed, "-----BEGIN PGP SIGNATURE-----")] + b.String() + "\n"
+}
+
+// editedSignature re-serialises the document's signature packet after `edit` changed its body
+// (body[0] version, [1] signature type, [2] public-key algorithm, [3] hash algorithm)
+func editedSignature(signed string, edit func(body []byte)) []byte {
+	blk, _ := clearsign.Decode([]byte(signed))
+	if blk == nil {
+		return nil
+	}
+	or := packet.NewOpaqueReader(blk.ArmoredSignature.Body)
+	var out bytes.Buffer
+	for {
+		op, err := or.Next()
+		if err != nil {
+			break
+		}
+		if len(op.Contents) > 4 {
+			edit(op.Contents)
+		}
+		op.Serialize(&out)
+	}
+	return out.Bytes()
+}
+
 func hexID(e *openpgp.Entity) string { return core.Hex(fmt.Sprintf("%016x", e.PrimaryKey.KeyId)) }
 
 // external answers for one input: clearsign.Decode and CheckDetachedSignature
@@ -298,6 +329,16 @@ func streamClearsig(g *core.G) {
 			law(withSignatures(signed, clearSign(ks[2], text), emptyDoc), krBoth, true, sid, "reject")
 			law(withSignatures(signed, signed, otherDoc), krBoth, true, sid, "faithful")
 			law(withSignatures(signed, otherDoc, signed), krBoth, true, sid, "faithful")
+			// signature packets the OpenPGP library cannot read or check (EdDSA / unknown public-key
+			// algorithm, unknown hash, future version), alone and in front of a readable one; an armor
+			// with no packet at all: none of them makes the text a signed one
+			for _, ed := range []func([]byte){func(b []byte) { b[2] = 22 }, func(b []byte) { b[2] = 99 }, func(b []byte) { b[3] = 99 }, func(b []byte) { b[0] = 5 }, func(b []byte) { b[1] = 0x10 }} {
+				bad := editedSignature(otherDoc, ed)
+				law(withPackets(signed, bad), krBoth, true, sid, "reject")
+				law(withPackets(signed, append(append([]byte{}, bad...), editedSignature(emptyDoc, func([]byte) {})...)), krBoth, true, sid, "reject")
+				law(withPackets(signed, editedSignature(signed, ed)), krBoth, true, sid, "faithful")
+			}
+			law(withPackets(signed, nil), krBoth, true, sid, "reject")
 			// a keyring variable that is edited in place between reads
 			o := ks[0]
 			if o == signer {
